@@ -7,6 +7,7 @@ import (
 
 	"github.com/gregoryv/mq"
 
+	"verif/drv"
 	"verif/gen"
 	"verif/link"
 	"verif/ref"
@@ -355,11 +356,97 @@ func runC15(c *sim.Ctx) *sim.Violation {
 			}
 		}
 	}
+	// remaining lengths of the three- and four-byte range through the real encoders
+	// of several packet types (each type may carry its own copy of the encoder):
+	// only the header is kept, the body is counted
+	if c.Run < 12 || t.Bool(1, 40) {
+		e := 21 + t.Int(5) // 2 MiB .. 64 MiB
+		if c.Thorough && t.Bool(1, 6) {
+			e = 26 + t.Int(2)
+		}
+		if c.Run < 12 {
+			e = 14 + int(c.Run) // 16 KiB .. 32 MiB, one exponent per run
+		}
+		target := 1<<uint(e) + t.Int(1<<uint(e))
+		if t.Bool(1, 4) {
+			target = 1<<uint(e) + t.Int(300)
+		}
+		if target > 268435455 {
+			target = 268435455
+		}
+		var p mq.Packet
+		var what string
+		switch t.Int(4) {
+		case 0, 1:
+			pub := mq.NewPublish()
+			pub.SetTopicName("t")
+			pub.SetPayload(make([]byte, target-4))
+			p, what = pub, "PUBLISH (payload)"
+		case 2:
+			sub := mq.NewSubscribe()
+			sub.SetPacketID(7)
+			big := string(bytes.Repeat([]byte{'f'}, 65535))
+			for n := 3; n+65538 <= target; n += 65538 {
+				sub.AddFilters(mq.NewTopicFilter(big, 0))
+			}
+			sub.AddFilters(mq.NewTopicFilter("x", 0))
+			p, what = sub, "SUBSCRIBE (filters of 65535 bytes)"
+		default:
+			ack := mq.NewPubAck()
+			ack.SetPacketID(7)
+			big := string(bytes.Repeat([]byte{'v'}, 65535))
+			for n := 4; n+65541 <= target; n += 65541 {
+				ack.AddUserProp("k", big)
+			}
+			p, what = ack, "PUBACK (user properties of 65535 bytes)"
+		}
+		hw := &headWriter{}
+		var n int64
+		var werr error
+		if pi := sim.Guard(func() { n, werr = p.WriteTo(hw) }); pi != nil || werr != nil {
+			return sim.V("C15/public-api/large-remaining-length/write-failed", "%s aiming at remaining length %d: err=%v panic=%v", what, target, werr, pi)
+		}
+		// the header must be the minimal form of (total - 1 - its own size)
+		ok := false
+		for w := 1; w <= 4; w++ {
+			rl := hw.n - 1 - w
+			if rl >= 0 && ref.VarintLen(uint32(rl)) == w {
+				want := ref.AppendVarint([]byte{hw.head[0]}, uint32(rl))
+				ok = bytes.HasPrefix(hw.head, want)
+				if !ok {
+					return sim.V(fmt.Sprintf("C15/public-api/large-remaining-length/%s", typeName(drv.TypeOf(p))),
+						"%s of %d bytes in total: header %x, the minimal remaining length field for %d is %x", what, hw.n, hw.head[:min2(len(hw.head), 5)], rl, want[1:])
+				}
+				break
+			}
+		}
+		if !ok || int64(hw.n) != n {
+			return sim.V("C15/public-api/large-remaining-length/size", "%s: WriteTo returned %d, %d bytes written, header %x", what, n, hw.n, hw.head)
+		}
+		c.Count(fmt.Sprintf("probe.remaining-length-through-real-encoder(%d-byte form)", ref.VarintLen(uint32(hw.n-2))))
+	}
 	if c.WantSample() {
 		c.Sample(fmt.Sprintf("run %d: 16 boundary values + 40 seeded values (encode, in-memory decode, streaming decode over a fragmenting link) and 40 seeded 3..5-byte sequences (decoder agreement) all as MQTT defines", c.Run))
 	}
 	_ = io.EOF
 	return nil
+}
+
+// headWriter keeps the first 8 bytes and counts the rest.
+type headWriter struct {
+	head []byte
+	n    int
+}
+
+func (w *headWriter) Write(p []byte) (int, error) {
+	if k := 8 - len(w.head); k > 0 {
+		if k > len(p) {
+			k = len(p)
+		}
+		w.head = append(w.head, p[:k]...)
+	}
+	w.n += len(p)
+	return len(p), nil
 }
 
 func min2(a, b int) int {
